@@ -78,7 +78,24 @@ CHECKS = [
     _c("C14", "Lean theorems over translator-generated opcode tables + differential correspondence of make/read_operands",
        "Kernel-checked: decode(encode)=id for every opcode and operand list that fits the declared widths (unbounded), the VM's inline operand reads equal the DEFINITIONS layout, From<u8> inverts the "
        "discriminant. Tables regenerated from the Rust source on every run; make/lookup/read_operands compared on every opcode byte and an operand sweep.",
-       "Open: compile_rejects_overflow (the compiler silently truncates operands: defect F24, not yet repaired; see DESIGN §8)."),
+       "The compiler's overflow check (fix fea076a) is exercised by limit programs (locals, arguments, captures, jump distance; constants/globals in the thorough tier). Open: compile_rejects_overflow as a theorem on the compiler model."),
+    _c("C19", "Lean theorems on the pcap reader/writer model and on the specification's codec + differential run of the real pcap_open/read/write on generated, truncated and corrupted files",
+       "Kernel-checked: the little-endian global/record header codecs invert each other; pcap_read_all on the encoding of a well-formed file returns its records; repeated read_next returns them in order, then null; "
+       "read_all(f, n) returns min(n, remaining) and leaves the rest; a file cut inside record k+1 yields exactly k records then null, a corrupt record header after k records yields those k then an error object; "
+       "written packets (caplen <= 65535) read back identically; no run of the model panics; the specification's decoder (the oracle) inverts its encoder. The real code is run on random files "
+       "(both magics, snaplens, sizes around the 4096/8192 buffer edges), truncation at every offset, header corruption, interleaved read/write scripts, and judged against the spec decoder.",
+       "Known finding: a packet longer than 65535 bytes cannot be read back from a file written by pcap_open(.., \"w\") (fixed snaplen in the header written first). std's read_exact/BufReader/BufWriter are assumed to behave as a cursor over the file's bytes."),
+    _c("C21", "Lean theorems over an abstract reader (any chunking schedule) and the open-mode table + end-to-end runs of the binary on files and paced pipes",
+       "Kernel-checked for every conforming source (pipes fed in any chunks, BufReader over any conforming source), handle and call sequence: what the calls consumed, in order, followed by what the source still "
+       "holds is the original content (nothing duplicated, reordered or skipped); read(f) / read_to_string consume everything that remains, read(f, n) stops short only at end of input, read_line returns exactly the next line; "
+       "open's flags realise the documented r/w/a/x table; after a normal end, a flush or exit the file holds what the open left plus exactly the bytes written. The binary is run on files of sizes around the buffer edges, "
+       "on stdin pipes written in paced chunks, over mixed call sequences, and on the mode table with existing/missing files.",
+       "The OS (read/write/open syscalls, the page cache) is a parameter of the model: a `Source` that returns between 1 and n bytes until its end. Timing of pipe chunks in the end-to-end run is best-effort (sleep-paced writer)."),
+    _c("C22", "Lean theorems over a fault-oracle model of the eleven I/O builtins + end-to-end runs of the binary against failing targets (/dev/full, closed pipes, directories, permissions)",
+       "Kernel-checked: whatever the oracle answering the builtin's OS calls, the handle state and the arguments, if some OS call fails the builtin returns Ok(error object) for that failure and the script continues "
+       "(is_error true), for open, read, read_line, read_to_string, write, flush, pcap_open, pcap_read_next, pcap_read_all, pcap_write, pcap_stream. The binary is run against targets that make the OS call fail "
+       "(ENOENT, EEXIST, EISDIR, EACCES, ENOSPC on /dev/full, EPIPE, invalid UTF-8) and must report an error object and go on.",
+       "Which OS calls a builtin makes is read off the source by hand (phases in Model/IoFaults.lean) and tied by the end-to-end run only; the set of failures that can be provoked in the sandbox is limited to the targets above."),
     _c("C20", "Lean theorems on the stream-loop model + end-to-end differential run of the binary (dev+release) against FilterSpec",
        "Kernel-checked on the run_filters model (filters abstract): selected numbers are packet indices, written in input order, the end filter sees the packet count. FilterSpec (reference semantics + "
        "NP/PL/WL/TSS/TSU) is the oracle for random pcap streams × generated filter programs, with and without -s: which packets are written, order, multiplicity, output header = input header, program output.",
